@@ -15,10 +15,14 @@ MAX_VIOL_PER_KEY = 3
 MAX_KEYS = 200
 
 
+_LAST = [None]
+
+
 class Acc:
     """Per-shard accumulator (plain data, picklable)."""
 
     def __init__(self):
+        _LAST[0] = self       # lets a crashing worker hand back what it had
         self.evals = 0
         self.nontrivial = 0
         self.viol = {}          # key -> [(key, what, case)]
@@ -50,11 +54,13 @@ class Acc:
 
 def _call(args):
     worker, shard = args
+    _LAST[0] = None
     try:
         acc = worker(shard)
         return ('ok', acc.pack())
     except BaseException:   # a harness bug, not a property violation
-        return ('err', (repr(shard)[:300], traceback.format_exc()))
+        partial = _LAST[0].pack() if _LAST[0] is not None else None
+        return ('err', (repr(shard)[:300], traceback.format_exc(), partial))
 
 
 def run_shards(worker, shards, report, procs=None, chunksize=1):
@@ -77,7 +83,12 @@ def run_shards(worker, shards, report, procs=None, chunksize=1):
                 results.append(r)
     for status, payload in results:
         if status == 'err':
-            shard, tb = payload
+            shard, tb, partial = payload
+            if partial is not None:
+                # violations recorded before the crash are real executions
+                for key, lst in partial[2].items():
+                    for _, what, case in lst:
+                        report.violation(key, what, case)
             report._vacuous = True
             report.add('worker_crashes')
             if report.coverage['worker_crashes'] > 2:
